@@ -163,6 +163,7 @@ pub fn run(seed: u64, out: &str, millis: u64) -> bool {
         // exist" when its put was accepted
         {
             let (cache, stop, violations) = (cache.clone(), stop.clone(), violations.clone());
+            let no_pressure = *max >= 1000;
             threads.push(std::thread::spawn(move || {
                 let mut key = 1_000_000u64;
                 while !stop.load(Ordering::Relaxed) {
@@ -179,7 +180,10 @@ pub fn run(seed: u64, out: &str, millis: u64) -> bool {
                     if cache.get(&key).is_some() {
                         violations.lock().unwrap().push(format!("C11/put-then-delete-leaves-key put({}); delete({}) un-awaited, both acknowledged ({:?}, {:?}), and the key is still readable", key, key, put_status, delete_status));
                     }
-                    if put_status == CommandStatus::Accepted && matches!(delete_status, CommandStatus::Rejected(_)) {
+                    // only where nothing else can take the key away in between: under memory pressure another thread's put, queued
+                    // between the two commands, may evict the fresh key before its Delete runs, and the Delete is then rightly
+                    // answered "key does not exist" (C11_layerB_put_then_delete_counterexample; the key is absent all the same)
+                    if no_pressure && put_status == CommandStatus::Accepted && matches!(delete_status, CommandStatus::Rejected(_)) {
                         violations.lock().unwrap().push(format!("C11/delete-overtook-put put({}) accepted but the delete issued after it was rejected ({:?})", key, delete_status));
                     }
                 }
